@@ -22,6 +22,7 @@ import (
 	"net/netip"
 	"os"
 	"path/filepath"
+	"reflect"
 	"sort"
 	"strconv"
 	"strings"
@@ -37,6 +38,7 @@ import (
 	"github.com/jech/storrent/protocol"
 	"github.com/jech/storrent/webseed"
 	rc "github.com/jech/storrent/zzverif/refcodec"
+	"github.com/jech/storrent/zzverif/vsel"
 )
 
 const wchunk = 16 * 1024
@@ -110,6 +112,7 @@ type worldCfg struct {
 	Magnet  bool   // metadata unknown at start
 	Webseed bool
 	EventCap  int  // capacity of the torrent's event queue (0 = 512 as in the code)
+	Gates     bool // peers can be stepped arm by arm (needs the select rewrite: profile worldsel)
 	AutoDrain bool // deliver torrent events automatically after every stimulus
 	IdleRate  int  // config.IdleRate (0 = idle prefetch off)
 	InfoSize  int  // magnet worlds: size of the generated info dictionary (0 = natural)
@@ -141,6 +144,7 @@ type World struct {
 	chans     []*wchan
 	evictions int
 	wedged    bool // a step of the loop never returned
+	skip      bool // the transition needed a gated peer to answer: not enabled in this state
 	idle      time.Duration   // virtual time that has passed since the last transition that was not a pure time step
 	home      map[string]bool // control states (stack signatures) of storrent's goroutines when the world was built
 }
@@ -212,6 +216,9 @@ type remote struct {
 	pendingUp          []rc.Msg // our requests storrent may still answer
 	cancelledUp        []rc.Msg // requests we cancelled (a Fast peer acknowledges with a reject)
 	goneBefore         bool     // the peer had already exited before the transition being judged
+	gated              bool     // the peer's main loop parks before every select and takes the arm the harness names
+	gate               chan int
+	gateReply          chan bool
 	crossedUp          []rc.Msg // cancelled requests whose Piece storrent had already committed to its writer
 	sentInterested     bool
 	served             int
@@ -482,6 +489,11 @@ func newWorld(cfg worldCfg) *World {
 	t.Deleted = make(chan struct{})
 	t.rand = rand.New(rand.NewPCG(1, 2))
 	w.t = t
+	if cfg.Gates {
+		vsel.SetHook(w.selHook)
+	} else {
+		vsel.SetHook(nil)
+	}
 	w.ctx, w.cancel = context.WithCancel(context.Background())
 	for _, i := range cfg.Have {
 		w.storePiece(uint32(i))
@@ -515,6 +527,7 @@ func (w *World) addPeer(i int, pc peerCfg) {
 	p.Log = discardLog
 	r := &remote{w: w, idx: i, cfg: pc, p: p, conn: b, id: id, adv: map[uint32]bool{}, choking: true, fastSet: map[uint32]bool{}}
 	r.cond = sync.NewCond(&r.mu)
+	r.gate, r.gateReply = make(chan int, 1), make(chan bool, 1)
 	w.remotes = append(w.remotes, r)
 	go r.readLoop()
 	go r.writeLoop()
@@ -532,6 +545,82 @@ func (w *World) addPeer(i int, pc peerCfg) {
 		}
 		r.send(m)
 		r.sentExt0 = true
+	}
+}
+
+// --- stepping a peer arm by arm (profile worldsel) ------------------------------
+//
+// With the select statements of peer/peer.go rewritten into vsel.Select calls,
+// the main loop of a gated peer parks before each select and waits for the
+// harness to name the arm it is to take (pstep:<remote>:<arm>; arms of
+// peer.Run's main select in source order: 0 writer gone, 1 torrent gone, 2 a
+// command from the torrent, 3 a message from the remote, 4 hand the oldest
+// parked event to the torrent, 5 upload tick, 6 two-second tick).  The arm is
+// taken only if it is ready.  This makes the runtime's choice among several
+// ready arms - and the interleaving of a peer's steps with the torrent's - a
+// transition of the search instead of a coin the runtime tosses.
+
+func chanPtr(c any) uintptr {
+	v := reflect.ValueOf(c)
+	if !v.IsValid() || v.Kind() != reflect.Chan {
+		return 0
+	}
+	return v.Pointer()
+}
+
+func (w *World) selHook(id string, hasDefault bool, cases []vsel.Case) (int, bool) {
+	if !strings.HasPrefix(id, "peer.go:") || len(cases) != 7 || hasDefault {
+		return 0, false
+	}
+	var r *remote
+	cp := chanPtr(cases[2].Chan())
+	for _, x := range w.remotes {
+		if chanPtr(x.p.Event) == cp {
+			r = x
+		}
+	}
+	if r == nil || !r.gated {
+		return 0, false
+	}
+	for {
+		cmd := <-r.gate
+		if cmd < 0 {
+			return 0, false
+		}
+		if vsel.Take(cases, cmd) {
+			r.gateReply <- true
+			return cmd, true
+		}
+		r.gateReply <- false
+	}
+}
+
+func (w *World) anyGated() bool {
+	for _, r := range w.remotes {
+		if r.gated {
+			return true
+		}
+	}
+	return false
+}
+
+func (w *World) ungateAll() {
+	for _, r := range w.remotes {
+		if r.gated {
+			r.gated = false
+			select {
+			case r.gate <- -1:
+			default:
+			}
+		}
+	}
+	synctest.Wait()
+	for _, r := range w.remotes {
+		// a command nobody took (the peer had exited)
+		select {
+		case <-r.gate:
+		default:
+		}
 	}
 }
 
@@ -572,6 +661,18 @@ func (w *World) guarded(key, what string, f func()) bool {
 		}()
 		f()
 	}()
+	if w.anyGated() {
+		// a step of the torrent that needs an answer from a gated peer is not
+		// enabled in this state: let everything go and discard the transition
+		synctest.Wait()
+		select {
+		case <-done:
+			return true
+		default:
+		}
+		w.ungateAll()
+		w.skip = true
+	}
 	tm := time.NewTimer(10 * time.Minute)
 	select {
 	case <-done:
@@ -749,7 +850,7 @@ func (w *World) checkRequests() {
 
 // inTransit reports whether some event or frame has not reached its destination.
 func (w *World) inTransit() bool {
-	if len(w.t.Event) > 0 {
+	if len(w.t.Event) > 0 || w.anyGated() {
 		return true
 	}
 	for _, r := range w.remotes {
@@ -1569,6 +1670,45 @@ func (w *World) apply(tr string) bool {
 		writePeer(r.p, peer.PeerUnchoke{Unchoke: true})
 	case "chokepeer":
 		writePeer(r.p, peer.PeerUnchoke{Unchoke: false})
+	case "gate": // gate:<remote>  from now on the peer's main loop takes only the arms the harness names
+		if r == nil || r.gated || r.exited() || !w.cfg.Gates {
+			return false
+		}
+		r.gated = true
+		// one harmless round trip makes the peer leave its current select and park at the gate
+		r.p.GetStatus()
+	case "ungate":
+		if r == nil || !r.gated {
+			return false
+		}
+		r.gated = false
+		select {
+		case r.gate <- -1:
+		default:
+		}
+	case "pstep": // pstep:<remote>:<arm>
+		if r == nil || !r.gated || r.exited() {
+			return false
+		}
+		select {
+		case r.gate <- arg(2):
+		default:
+			return false
+		}
+		synctest.Wait()
+		select {
+		case ok := <-r.gateReply:
+			if !ok {
+				return false
+			}
+		default:
+			// the peer is not at the gate (it has exited, or is inside a handler)
+			select {
+			case <-r.gate:
+			default:
+			}
+			return false
+		}
 	case "addpeer":
 		if len(w.remotes) >= 3 {
 			return false
@@ -1580,6 +1720,10 @@ func (w *World) apply(tr string) bool {
 	}
 	w.transitions++
 	w.settle()
+	if w.skip {
+		w.skip = false
+		return false
+	}
 	return true
 }
 
@@ -1727,6 +1871,7 @@ func (w *World) checkStore() {
 // finish closes every connection, lets everything drain and checks the
 // end-of-path clauses: both tables all-zero, nobody unchoked, nothing leaked.
 func (w *World) finish() {
+	w.ungateAll()
 	if w.loopDead {
 		return
 	}
@@ -1845,6 +1990,7 @@ func (w *World) finishConsumers() {
 
 // dispose releases what the world holds so that executions do not leak into each other.
 func (w *World) dispose() {
+	w.ungateAll()
 	w.cancel()
 	close(w.t.Done)
 	for _, r := range w.remotes {
@@ -1966,6 +2112,9 @@ func (w *World) canon() string {
 			pu = append(pu, fmt.Sprintf("%d/%d/%d", o.Index, o.Begin, o.Length))
 		}
 		fmt.Fprintf(&sb, " ch=%v out=%v pu=%v ubs=%v si=%v adv=%v fs=%v po=%v g=%v mr=%v", r.choking, out, pu, r.unchokedByStorrent, r.sentInterested, sortedSet(r.adv), sortedSet(r.fastSet), r.pendingOut(), r.grace, r.metaReqs)
+		if r.gated {
+			sb.WriteString(" gated")
+		}
 		if len(r.cancelledUp)+len(r.crossedUp)+len(r.resolvedStalled) > 0 {
 			// monitor state that decides later verdicts
 			fmt.Fprintf(&sb, " cu=%v cx=%v rs=%v", r.cancelledUp, r.crossedUp, r.resolvedStalled)
